@@ -224,6 +224,9 @@ func (c *Ctx) summary(fn *ssa.Function) *wset {
 	c.busy[fn] = true
 	w := &wset{}
 	ssau.ForEachInstr(fn, false, func(in ssa.Instruction) {
+		if writesOwnAllocation(in) {
+			return
+		}
 		iw := c.instrWrites(in)
 		if iw.all {
 			w.all = true
@@ -543,6 +546,39 @@ func (f *Fn) expr(v ssa.Value, ver bool, d int) string {
 	case *ssa.Extract:
 		return f.expr(x.Tuple, ver, d+1) + fmt.Sprintf("#%d", x.Index)
 	case *ssa.Slice:
+		if al, ok := x.X.(*ssa.Alloc); ok && x.Low == nil && x.High == nil && (al.Comment == "varargs" || al.Comment == "slicelit") {
+			// a slice literal / variadic argument list: render its elements
+			type el struct {
+				i int64
+				s string
+			}
+			var els []el
+			okAll := true
+			for _, ref := range *al.Referrers() {
+				ia, ok := ref.(*ssa.IndexAddr)
+				if !ok {
+					continue
+				}
+				i, isc := ssau.ConstInt(ia.Index)
+				if !isc {
+					okAll = false
+					continue
+				}
+				for _, r2 := range *ia.Referrers() {
+					if st, ok := r2.(*ssa.Store); ok && st.Addr == ssa.Value(ia) {
+						els = append(els, el{i, f.expr(st.Val, ver, d+2)})
+					}
+				}
+			}
+			if okAll {
+				sort.Slice(els, func(a, b int) bool { return els[a].i < els[b].i })
+				var parts []string
+				for _, e := range els {
+					parts = append(parts, e.s)
+				}
+				return "[" + strings.Join(parts, ", ") + "]"
+			}
+		}
 		s := f.expr(x.X, ver, d+1) + "["
 		if x.Low != nil {
 			s += f.expr(x.Low, ver, d+1)
@@ -571,10 +607,22 @@ func (f *Fn) expr(v ssa.Value, ver bool, d int) string {
 	case *ssa.Index:
 		return f.expr(x.X, ver, d+1) + "[" + f.expr(x.Index, ver, d+1) + "]" + at(x)
 	case *ssa.Phi:
-		// small acyclic phis are rendered structurally (sorted), others by identity
+		// phis whose inputs are all leaves (constants, parameters, loads) are
+		// rendered structurally (sorted); others by identity
 		var parts []string
 		for _, e := range x.Edges {
-			if _, isPhi := e.(*ssa.Phi); isPhi {
+			switch y := e.(type) {
+			case *ssa.Const, *ssa.Parameter:
+			case *ssa.UnOp:
+				if y.Op != token.MUL {
+					return fmt.Sprintf("phi:%s", x.Name())
+				}
+				switch y.X.(type) {
+				case *ssa.FieldAddr, *ssa.Alloc, *ssa.FreeVar, *ssa.Global:
+				default:
+					return fmt.Sprintf("phi:%s", x.Name())
+				}
+			default:
 				return fmt.Sprintf("phi:%s", x.Name())
 			}
 			parts = append(parts, f.expr(e, ver, d+5))
@@ -687,4 +735,47 @@ func (f *Fn) LoadKeyOfAddr(addr ssa.Value) (key, plain string) {
 		return "", ""
 	}
 	return k, f.locString(addr)
+}
+
+// CallWrites reports what a call instruction may write: everything (all), or
+// the listed location classes (sorted).
+func (c *Ctx) CallWrites(call ssa.CallInstruction) (all bool, keys []string) {
+	w := c.instrWrites(call)
+	for k := range w.keys {
+		keys = append(keys, k)
+	}
+	sort.Strings(keys)
+	return w.all, keys
+}
+
+// writesOwnAllocation: the instruction stores into an object allocated by the
+// same function activation (composite literal, make, new). Such a write cannot
+// change anything a caller loaded before the call.
+func writesOwnAllocation(in ssa.Instruction) bool {
+	var addr ssa.Value
+	switch x := in.(type) {
+	case *ssa.Store:
+		addr = x.Addr
+	case *ssa.MapUpdate:
+		addr = x.Map
+	default:
+		return false
+	}
+	for i := 0; i < 12; i++ {
+		switch a := addr.(type) {
+		case *ssa.Alloc:
+			return true
+		case *ssa.MakeSlice, *ssa.MakeMap:
+			return true
+		case *ssa.FieldAddr:
+			addr = a.X
+		case *ssa.IndexAddr:
+			addr = a.X
+		case *ssa.Slice:
+			addr = a.X
+		default:
+			return false
+		}
+	}
+	return false
 }
